@@ -228,7 +228,41 @@ class Engine:
             }
 
         stmt = None
-        if fs.kind != "lemma" and fs.options.get("stmt"):
+        if fs.kind != "lemma" and str(fs.options.get("stmt", "")).startswith("decorator:"):
+            # a unit about the DECORATOR of the function (e.g. cachebox.cached): the decorator call is read from the real source and
+            # its arguments become locals of a synthesized statement, over which the contract's postconditions speak:
+            #   decorated: Bool; for every keyword argument k: a lambda is applied to the function's first parameter (`k` is its value),
+            #   any other expression is its source text (`k` is a Str)
+            want = fs.options["stmt"].split(":", 1)[1]
+            deco = None
+            for d in fnode.decorator_list:
+                if isinstance(d, ast.Call) and ast.unparse(d.func).split(".")[-1] == want:
+                    deco = d
+            first = fnode.args.args[0].arg if fnode.args.args else "self"
+            lines = [f"decorated = {deco is not None}"]
+            given = {kw.arg for kw in deco.keywords} if deco is not None else set()
+            pnames = {a.arg for a in fnode.args.args}
+            for e in fs.ensures:
+                for x in ast.walk(e):
+                    # a keyword the contract speaks about and the decorator call does not pass: the text "<absent>"
+                    if (isinstance(x, ast.Name) and x.id not in given and x.id not in pnames and x.id != "decorated" and x.id not in self.m.fns
+                            and x.id not in self.m.classes and x.id not in ("implies", "identical", "forall", "exists", "old", "True", "False", "None")
+                            and f'{x.id} = "<absent>"' not in lines):
+                        lines.append(f'{x.id} = "<absent>"')
+            if deco is not None:
+                for kw in deco.keywords:
+                    if kw.arg is None:
+                        continue
+                    if isinstance(kw.value, ast.Lambda):
+                        lines.append(f"{kw.arg} = ({ast.unparse(kw.value)})({first})")
+                    else:
+                        lines.append(f"{kw.arg} = {ast.unparse(kw.value)!r}")
+            stmt = ast.parse("if True:\n" + "\n".join("    " + ln for ln in lines)).body[0]
+            self.functions_info[fs.unit]["extracted_statement"] = fs.options["stmt"]
+            self.functions_info[fs.unit]["extraction_drops"] = ("the function body; only the arguments of its @" + want + "(...) decorator are read: " + "; ".join(lines))
+            if deco is None:
+                fs = _vacuous_copy(fs)
+        elif fs.kind != "lemma" and fs.options.get("stmt"):
             from .contracts import locate_stmt
 
             stmt = locate_stmt(fnode, fs.options["stmt"])
@@ -259,6 +293,7 @@ class Interp:
         self.fname = fs.unit if fs else "?"
         self.callsite_counter = {}
         self.frames = []  # inline call stack (names) to stop recursion
+        self.ctx_stack = []  # entered context managers (other than locks)
         self.result = None
         self.solver = None
         self.path_id = ""
@@ -1066,12 +1101,34 @@ class Interp:
             if item.optional_vars is not None:
                 self.assign(item.optional_vars, v)
             return
+        if isinstance(v, V) and isinstance(v.sort, S.TRef):
+            # any other context manager: its __aenter__/__enter__ contract gives the bound value, __aexit__/__exit__ (if declared)
+            # runs at the end; an undeclared exit does nothing and lets exceptions through
+            for meth in ("__aenter__", "__enter__"):
+                q, kind = self.m.find_method(v.sort.cls, meth)
+                if q:
+                    r = self.call_named(q, kind, [v], {}, item.context_expr)
+                    if item.optional_vars is not None:
+                        self.assign(item.optional_vars, r)
+                    self.ctx_stack.append(v)
+                    return
         raise OutOfSubset(f"with-context {ast.unparse(item.context_expr)}")
 
     def exit_ctx(self, item):
-        v = self.ev_spec_val(item.context_expr)
+        try:
+            v = self.ev_spec_val(item.context_expr)
+        except OutOfSubset:
+            v = None
         if isinstance(v, V) and isinstance(v.sort, S.TRef) and self.heap_key(v.sort.cls, "held")[0] is not None:
             self.set_field(v, "held", mk_bool(False))
+            return
+        if self.ctx_stack:
+            v = self.ctx_stack.pop()
+            for meth in ("__aexit__", "__exit__"):
+                q, kind = self.m.find_method(v.sort.cls, meth)
+                if q:
+                    self.call_named(q, kind, [v], {}, item.context_expr)
+                    return
 
     def yield_point(self, why):
         hook = getattr(self, "on_yield", None)
@@ -1739,6 +1796,10 @@ class Interp:
         ignore = isinstance(f, FuncObj) and f.name in self.m.contracts and self.m.contracts[f.name].options.get("ignore_args")
         split_star = isinstance(f, FuncObj) and f.name in self.m.contracts and self.m.contracts[f.name].options.get("split_star")
         args = []
+        if ignore == "all":
+            # the callee's contract does not depend on its arguments (declared ignore_args="all"): they are not evaluated; the
+            # receiver (if any) is still passed
+            return self.call(f, [], {}, n)
         for a in n.args:
             if isinstance(a, ast.Starred):
                 if ignore:
@@ -2274,6 +2335,15 @@ def _is_raised_identity(c):
 
 def _never_returns(fs):
     return any(isinstance(e, ast.Constant) and e.value is False for e in fs.ensures)
+
+
+def _vacuous_copy(fs):
+    """the decorator a decorator-unit speaks about is absent: its clauses hold vacuously (same obligation ids, goal True)"""
+    import copy
+
+    c = copy.copy(fs)
+    c.ensures = [ast.parse("True", mode="eval").body for _ in fs.ensures]
+    return c
 
 
 def _mentions_internal_calls(e):
